@@ -1,7 +1,7 @@
 (* CertProofs.v — the model of certconstraint.go / Step.CheckCertConstraints
    (model/CertConstraint.v) against the declarative reading (spec/CertSpec.v). *)
 From IT Require Import spec.CertSpec.
-From IT Require Import gen.Consts.
+From IT Require Import gen.Consts gen.CertChecks.
 
 (* ------------------------------------------------------------------ *)
 (* small facts                                                        *)
@@ -363,3 +363,26 @@ Qed.
 Lemma step_cc_ok_spec s cv p ch ids :
   step_cc_ok s cv p ch ids = true <-> accepted_spec (s_cc s) (p = true) (ch = true) cv ids.
 Proof. unfold step_cc_ok. rewrite is_ok_unit. apply step_check_spec. Qed.
+
+(* ------------------------------------------------------------------ *)
+(* the source skeleton of CertificateConstraint.Check regenerated from
+   in_toto/certconstraint.go (gen/CertChecks.v) is the one transcribed in
+   [constraint_check]: same six checks in the same order, each comparing the
+   same constraint field with the same certificate field, the trust
+   verification preceding the root comparison *)
+Definition pinned_check_calls : list str :=
+  [bs "checkCommonName"; bs "checkDNSNames"; bs "checkEmails"; bs "checkOrganizations";
+   bs "checkRoots"; bs "checkURIs"].
+Definition pinned_check_args : list (str * list str * list str) :=
+  [(bs "checkCommonName", [bs "common name"; bs "[]string{cc.CommonName}"; bs "[]string{cert.Subject.CommonName}"],
+      [bs "checkCertConstraint"]);
+   (bs "checkDNSNames", [bs "dns name"; bs "cc.DNSNames"; bs "cert.DNSNames"], [bs "checkCertConstraint"]);
+   (bs "checkEmails", [bs "email"; bs "cc.Emails"; bs "cert.EmailAddresses"], [bs "checkCertConstraint"]);
+   (bs "checkOrganizations", [bs "organization"; bs "cc.Organizations"; bs "cert.Subject.Organization"],
+      [bs "checkCertConstraint"]);
+   (bs "checkRoots", [bs "root"; bs "cc.Roots"; bs "rootCAIDs"], [bs "VerifyCertificateTrust"; bs "checkCertConstraint"]);
+   (bs "checkURIs", [bs "uri"; bs "cc.URIs"; bs "urisToStrings(cert.URIs)"], [bs "checkCertConstraint"; bs "urisToStrings"])].
+
+Lemma check_skeleton_pinned :
+  cert_check_calls = pinned_check_calls /\ cert_check_args = pinned_check_args.
+Proof. split; vm_compute; reflexivity. Qed.
